@@ -173,6 +173,62 @@ CLAIMS["C17"] = (
     TECH + " for the run-length kernel and AttrMap; " + BOUNDED_TECH,
 )
 
+CLAIMS["C01"] = (
+    "other",
+    "Proved (children abstract): Padding.render / Filler.render return a canvas of exactly the requested columns and rows and Padding.rows equals the rows rendered; Frame.render, BoxAdapter.render, Overlay.render sizes; "
+    "Pile.get_item_rows: own rows for given/packed children and exact fill for weighted ones (the rows rendered); AttrMap.render keeps the child's size. "
+    "The statement itself (every bundled widget, every valid size and focus flag: render succeeds, rectangular, sized per mode against the widget's own rows()/pack(), cursor inside) is decided by the bounded stand-in: "
+    "all widget trees of depth <= 2 (sampled depth 3) over every bundled leaf, decoration and container class with the option combinations of the quantifier, texts incl. wide / zero-width / DEC characters, three encodings, sizes 1..6 x 1..4.",
+    "Bounded for the statement as a whole; the proved part covers the container classes named. Seven known findings (LineBox around a fixed-only child, zero-width packed column in fixed Columns, Filler leaving 0 rows for a ListBox, ScrollBar not wider than its bar, "
+    "fixed Pile of zero width, SO/SI bytes counted as columns, attribute run splitting a double-byte character).",
+    "§6 C01",
+    TECH + " for the container size lemmas; " + BOUNDED_TECH,
+)
+CLAIMS["C02"] = (
+    "other",
+    "Proved: the run-length kernel (rle_len, rle_get_at, rle_append_modify, rle_prepend_modify against the expansion view) and calc_trim_text (slice width + pads == requested range; pads iff a wide character straddles that edge). "
+    "The cell-for-cell statement is decided by the bounded stand-in: an independent grid model (spec/grid.py) of combine / join / overlay / pad / trim / fill_attr_apply / wrap; all expression trees of depth <= 2 (sampled deeper) over leaf canvases <= 4x3 "
+    "with wide and zero-width characters, 2-run attribute lists, cursors and pop-ups, all defined offsets: content, size, coordinates, operands unchanged, content_delta reproduces the new rows; the size/cursor facts the other properties' proofs assume of canvases (canvas protocol) are checked here.",
+    "The shard algebra (shard_body / shard_body_tail: iterator-driven generators over nested heterogeneous tuples) is outside the deductive subset: bounded only. One known finding (a CompositeCanvas trimmed to zero rows forgets its width).",
+    "§6 C02",
+    TECH + " for the run-length kernel; " + BOUNDED_TECH + " against a grid model",
+)
+CLAIMS["C05"] = (
+    "other",
+    "Bounded stand-in: every table sequence, X10/SGR mouse and cursor reports, UTF-8 / double-byte characters, garbage <= 3 bytes, every 1- and 2-cut split with the timeout fired or not, three encodings, through a real Screen on a pipe, "
+    "against an independent reference decoder. (Deductive contracts for the decoder functions are being merged: see evidence functions_under_contract.)",
+    "Bounded: see evidence 'bound'.",
+    "§6 C05",
+    BOUNDED_TECH + " against an independent reference decoder",
+)
+CLAIMS["C07"] = (
+    "other",
+    "Proved: the list walkers' focus handling (SimpleListWalker._modified clamps the focus into range and emits 'modified' once; set_focus accepts exactly the valid positions). "
+    "The statement (gap-free window containing the focus, blank rows only where allowed, cursor visible, no exception) is decided by the bounded stand-in: lists of 0..4 flow widgets with heights {0,1,3,taller than the box}, selectable or not, Edit cursors; "
+    "boxes of 1..5 rows; all sequences of <= 2 (sampled 3-4) operations from keys, mouse, set_focus with coming_from, set_focus_valign, resize, walker insert/delete/replace; three walker classes.",
+    "ListBox.calculate_visible / page up / page down (190-line procedures) are not under deductive contract: bounded only.",
+    "§6 C07",
+    TECH + " for the walkers; " + BOUNDED_TECH,
+)
+CLAIMS["C08"] = (
+    "other",
+    "Proved (children abstract, per operation, so by induction after any history): Pile and Columns: focus_position is a valid index or IndexError with nothing written, focus is the child at that index, _contents_modified recomputes selectability and invalidates, "
+    "keypress offers the key to the focus child only, returns an unconsumed non-navigation key unchanged and moves the focus to the nearest selectable child in the arrow's direction or nowhere (loop invariant); Frame: focus_position in the parts that exist, keypress/mouse routing; "
+    "Overlay: focus_position is 1; Filler/Padding/BoxAdapter keypress delegation; SimpleListWalker.set_focus. Bounded stand-in on real nestings (all container classes, depth <= 3, key/click/assignment/contents-edit sequences): focus valid, invalid positions rejected, "
+    "keys and focused rendering reach focus-path widgets only, unhandled keys come back, selectable() after edits, get/set_focus_path round trip.",
+    "GridFlow and ListBox focus: bounded only. Four known findings (wrong-typed position raises TypeError, ListBox completes a focus change inside the item, empty GridFlow's divider lacks cursor methods, Columns of a zero-row Pile).",
+    "§6 C08",
+    TECH + " (per-operation invariants); " + BOUNDED_TECH,
+)
+CLAIMS["C10"] = (
+    "other",
+    "Bounded stand-in only: texts <= 6 characters over {a, wide, zero-width, newline, space} x captions x widths 1..6 x wrap x align x multiline/allow_tab/mask x key sequences (printables, left/right/up/down/home/end, backspace, delete, enter, tab, clicks) "
+    "compared with an independent reference editor driven by a reference layout: text and cursor offset, cursor cell = cell of the character at the offset, return values, change signals, numeric alphabets.",
+    "No deductive obligations for Edit yet (string-heavy code; planned single-step contracts, DESIGN §6 C10). Two known findings (rows of zero-width characters only; negative defaults with allow_negative=False).",
+    "§6 C10",
+    BOUNDED_TECH + " against a reference editor",
+)
+
 PENDING = "contracts for this property are not built yet in this commit (see DESIGN.md §6 for the plan); no check is claimed"
 
 
